@@ -788,3 +788,8 @@ Print Assumptions search_divergence_keeps.
 Print Assumptions accept_stat_range.
 Print Assumptions accept_stat_sym_range.
 Print Assumptions accept_stat_sym_range_min.
+
+(* search2 with the first trial taken from the same oracle is search *)
+Lemma search2_is_search : forall (acc : Q -> option Q) (initial target : Q),
+  search2 acc initial target (acc initial) = search acc initial target.
+Proof. intros. reflexivity. Qed.
